@@ -1221,7 +1221,7 @@ void rt_oracles_end(const char *stats_path)
 	}
 	if(!stopped && all_frozen && g->post_goal == 0) {
 		for(unsigned i = 0; i < g->n_lps; i++)
-			if(gm_out.rep[i].digest != RT.ref.fini_digest[i]) {
+			if(!g->stateless[i] && gm_out.rep[i].digest != RT.ref.fini_digest[i]) { /* routers keep drawing until the run stops */
 				rt_fail(eq_prop,
 				    "final state of LP %u differs from the sequential execution (digest %016llx, expected %016llx; handled %u events, goal %u, "
 				    "predicate first true at t=%a)",
